@@ -256,6 +256,11 @@ class Exec:
                  'lookups', 'resources_in', 'lazy', 'now0')
 
 
+# watchdog for one calc call, seconds (a calc of the checks' inputs takes milliseconds; see seams.time_limit)
+CALC_WALL_LIMIT = 45
+TIMEOUTS = []  # scenarios of this process whose calc hit the watchdog
+
+
 def lookup_limit(n_tasks):
     return (n_tasks + 1) * 3 * 100000 + 1000
 
@@ -320,8 +325,12 @@ def execute(sc, chooser=None, clock_menu=None, prebuilt=None, scheduler=None, re
     ex.result = None
     ex.error = None
     try:
-        ex.result = scheduler.calc(ex.wbs)
+        with seams.time_limit(CALC_WALL_LIMIT):
+            ex.result = scheduler.calc(ex.wbs)
         ex.status = 'ok'
+    except seams.WallTimeout:
+        ex.status = 'timeout'
+        TIMEOUTS.append(sc.key()[:200])
     except seams.BudgetExceeded:
         ex.status = 'budget'
     except RecursionError as e:
